@@ -29,10 +29,10 @@ type pathEnd struct {
 }
 
 type decision struct {
-	Kind   string  `json:"k"`
-	Choice int     `json:"c"`
-	N      int     `json:"n,omitempty"`
-	Opts   []int64 `json:"o,omitempty"`
+	Kind   string   `json:"k"`
+	Choice int      `json:"c"`
+	N      int      `json:"n,omitempty"`
+	Opts   []int64  `json:"o,omitempty"`
 	SOpts  []string `json:"s,omitempty"`
 }
 
@@ -131,13 +131,13 @@ func newResult(h string) *Result {
 
 // Program is the loaded SSA program plus lookup tables shared by all paths.
 type Program struct {
-	Prog      *ssa.Program
-	Stubs     map[string]*ssa.Function // qualified target -> stub function
-	Guards    map[string]*ssa.Function // qualified target -> guard (stub applies only when it returns true)
-	EngineOnly map[string]bool         // stubs of dependency code (not applied in native replay)
-	FuncHash  func(fn *ssa.Function) string
-	RepoPath  string
-	runtimeES interface{}
+	Prog       *ssa.Program
+	Stubs      map[string]*ssa.Function // qualified target -> stub function
+	Guards     map[string]*ssa.Function // qualified target -> guard (stub applies only when it returns true)
+	EngineOnly map[string]bool          // stubs of dependency code (not applied in native replay)
+	FuncHash   func(fn *ssa.Function) string
+	RepoPath   string
+	runtimeES  interface{}
 }
 
 type workItem struct {
